@@ -6,14 +6,14 @@ TRUSTED = [
     "Lean 4.33 kernel; axioms per theorem under coverage.axioms (subset of propext, Classical.choice, Quot.sound)",
     "translate/handlers.py (syntactic scan of the schedule handlers -> Gen/HandlerEffects.lean: reference bindings, every selector of `snapshots` other than back()/[current step], container-level mutations of the snapshot vector, uses of names bound from a non-current snapshot (aliases propagated), global writes, the known in-place WellConnections mutators; it does not see arbitrary aliasing through function calls)",
     "harness/schedule.cpp (generator, canonical dump of the observation record, real ScheduleDeck block dump with and without ScheduleRestartInfo) + differ; Model/SchedIO.lean (parser/printer of the line protocol, IEEE evaluation of the symbolic number expressions add/mul the model builds)",
-    "partial: 23 record operations (WELSPECS incl. regrouping and head change, COMPDAT, COMPLUMP, WPIMULT both forms, WELOPEN both forms, WCONPROD, WCONINJE, WCONHIST, WCONINJH, WHISTCTL, WELTARG, WEFAC, WECON, WTEST, WLIST, GRUPTREE, GEFAC, GCONPROD, GCONINJE, NEXTSTEP, UDQ ASSIGN/DEFINE/UNITS registry, ACTIONX registry) plus COMPORD (first COMPORD keyword of the well's own report step), the connection ordering TRACK/DEPTH/INPUT with the connection sequence WellConnections::order() produces after COMPDAT, and the WELL_STATUS_CHANGE events have a concrete model; for every other keyword and ScheduleState member causality rests on the heap frame theorem + the effect table + the property-mode search on the real code",
-    "modelled, not verified: events other than the ACTIONX marker and WELL_STATUS_CHANGE, VFP/THP/ALQ, guide rates, UDQ-valued items and UDQ evaluation, WELTARG THP/VFP/LIFT/GUID, has_produced/has_injected, the connection sequence of wells whose head a later WELSPECS moved and of DEPTH-ordered wells with more than 16 connections (printed sorted by cell on both sides), depth represented by the layer index (layer-cake grid of the generator), order() after WELOPEN/COMPLUMP/WPIMULT taken as the identity on an ordered well (C06 order_idempotent), COMPDAT with defaulted I,J after a WELSPECS head change, loading the restart step from a restart file (the restart theorems are about the partition only), Float arithmetic of times (TSTEP values are exact binary fractions in the generator)",
+    "partial: 23 record operations (WELSPECS incl. regrouping and head change, COMPDAT, COMPLUMP, WPIMULT both forms, WELOPEN both forms, WCONPROD, WCONINJE, WCONHIST, WCONINJH, WHISTCTL, WELTARG, WEFAC, WECON, WTEST, WLIST, GRUPTREE, GEFAC, GCONPROD, GCONINJE, NEXTSTEP, UDQ ASSIGN/DEFINE/UNITS registry, ACTIONX registry) plus COMPORD (first COMPORD keyword of the well's own report step), the connection ordering TRACK/DEPTH/INPUT with the connection sequence WellConnections::order() produces after COMPDAT, the WELL_STATUS_CHANGE events, and the multisegment keywords WELSEGS / WSEGVALV / WSEGSICD / WSEGAICD (per-well segment sets with valve / ICD devices) have a concrete model; for every other keyword and ScheduleState member causality rests on the heap frame theorem + the effect table + the property-mode search on the real code",
+    "modelled, not verified: events other than the ACTIONX marker and WELL_STATUS_CHANGE, VFP/THP/ALQ, guide rates, UDQ-valued items and UDQ evaluation, WELTARG THP/VFP/LIFT/GUID, has_produced/has_injected, the connection sequence of wells whose head a later WELSPECS moved and of DEPTH-ordered wells with more than 16 connections (printed sorted by cell on both sides), depth represented by the layer index (layer-cake grid of the generator), order() after WELOPEN/COMPLUMP/WPIMULT taken as the identity on an ordered well (C06 order_idempotent), COMPDAT with defaulted I,J after a WELSPECS head change, loading the restart step from a restart file (the restart theorems are about the partition only), Float arithmetic of times (TSTEP values are exact binary fractions in the generator), COMPSEGS (segment of each connection, perforation lengths), ICD strength / scaling factor, valve additional length, a re-issued WELSEGS, COMPDAT on a multisegment well after COMPSEGS, devices on the top segment (compared on the real code in property mode only)",
 ]
 
 
 def run(ctx):
     ctx.assumptions += ["causal: non-restarted runs (rst_info.report_step = 0); the partition theorems also cover restart/SKIPREST", "cut points are DATES/TSTEP keyword boundaries",
-                        "observation record as listed in design.d/C03.md (third round: with COMPORD order, connection sequence, status-change events); ScheduleState::operator== on the implementation side"]
+                        "observation record as listed in design.d/C03.md (third round: with COMPORD order, connection sequence, status-change events; fourth round: segment sets of multisegment wells); every state is dumped after the whole deck has been processed; ScheduleState::operator== on the implementation side"]
     ctx.stage_translate(["handlers"])
     if not ctx.stage_build_opm():
         return ctx.finish(trusted_base=TRUSTED)
